@@ -5,10 +5,12 @@
 pub mod hooks;
 pub mod io;
 pub mod kernel;
+pub mod nodes;
 pub mod props;
 pub mod refcodec;
 pub mod rng;
 pub mod runner;
+pub mod sout;
 pub mod trace_sub;
 
 use runner::{Codec, Property, Tier};
